@@ -35,11 +35,131 @@ impl Drop for SNode {
         DROPS.fetch_add(1, Relaxed);
     }
 }
+pub struct Meta {
+    _pad: u64,
+    next: AtomicRc<Meta>,
+}
+unsafe impl RcObject for Meta {
+    fn pop_edges(&mut self, out: &mut Vec<Rc<Self>>) {
+        out.push(self.next.take());
+    }
+}
+static META_DROPS: AtomicUsize = AtomicUsize::new(0);
+impl Drop for Meta {
+    fn drop(&mut self) {
+        META_DROPS.fetch_add(1, Relaxed);
+    }
+}
+/// A node with an edge of another type, which `pop_edges` cannot return: it is released by the
+/// destructor, i.e. a decrement inside a running disposal.
+pub struct HNode {
+    hdr: Rc<Meta>,
+    next: AtomicRc<HNode>,
+}
+unsafe impl RcObject for HNode {
+    fn pop_edges(&mut self, out: &mut Vec<Rc<Self>>) {
+        out.push(self.next.take());
+    }
+}
+impl Drop for HNode {
+    fn drop(&mut self) {
+        let marker = 0u8;
+        MIN_SP.fetch_min(&marker as *const u8 as usize, Relaxed);
+        DROPS.fetch_add(1, Relaxed);
+        let _ = &self.hdr;
+    }
+}
+
+fn backlog_child(lists: usize, len: usize, stack: usize) {
+    use std::sync::atomic::AtomicBool;
+    static PINNED: AtomicBool = AtomicBool::new(false);
+    static RETIRED: AtomicBool = AtomicBool::new(false);
+    static DONE: AtomicBool = AtomicBool::new(false);
+    static UNPINNED: AtomicBool = AtomicBool::new(false);
+    let reader = std::thread::spawn(|| {
+        let g = circ::cs();
+        PINNED.store(true, SeqCst);
+        while !RETIRED.load(SeqCst) {
+            std::thread::yield_now();
+        }
+        drop(g);
+        UNPINNED.store(true, SeqCst);
+        let mut it = 0u64;
+        while !DONE.load(SeqCst) && std::env::var("C07_NOREADER").is_err() {
+            let g = circ::cs();
+            drop(g);
+            std::thread::yield_now();
+            it += 1;
+        }
+        if std::env::var("C07_DEBUG").is_ok() {
+            let g = circ::cs();
+            eprintln!("reader iterations {} state {:?}", it, circ::verif::local_state(&g));
+        }
+    });
+    let total = lists * len;
+    let h = std::thread::Builder::new()
+        .stack_size(stack)
+        .spawn(move || {
+            let base_marker = 0u8;
+            let base = &base_marker as *const u8 as usize;
+            while !PINNED.load(SeqCst) {
+                std::thread::yield_now();
+            }
+            for _ in 0..lists {
+                let hdr = Rc::new(Meta { _pad: 7, next: AtomicRc::null() });
+                let mut head: Rc<HNode> = Rc::null();
+                {
+                    let g = circ::cs();
+                    for _ in 0..len {
+                        let nd = Rc::new(HNode { hdr: hdr.clone(), next: AtomicRc::null() });
+                        nd.as_ref().unwrap().next.store(head, SeqCst, &g);
+                        head = nd;
+                    }
+                }
+                drop(hdr);
+                drop(head);
+                let g = circ::cs();
+                g.flush();
+            }
+            RETIRED.store(true, SeqCst);
+            // rounds are counted only once the reader has left its long critical section
+            while !UNPINNED.load(SeqCst) {
+                std::thread::yield_now();
+            }
+            let e_retired = circ::verif::global_epoch();
+            let bound = 40 * (2 + total / 1024) + 2000;
+            let mut rounds = 0;
+            while (DROPS.load(SeqCst) < total || META_DROPS.load(SeqCst) < lists) && rounds < bound {
+                churn(1);
+                rounds += 1;
+            }
+            DONE.store(true, SeqCst);
+            if std::env::var("C07_DEBUG").is_ok() {
+                let g = circ::cs();
+                eprintln!("epoch at retire {} now {} local {:?} meta_drops {}", e_retired, circ::verif::global_epoch(), circ::verif::local_state(&g), META_DROPS.load(SeqCst));
+            }
+            let peak = base.saturating_sub(MIN_SP.load(SeqCst));
+            let ok = DROPS.load(SeqCst) == total && META_DROPS.load(SeqCst) == lists;
+            println!(
+                "{}",
+                J::obj().set("type", "c07child").set("n", total).set("drops", if ok { total } else { DROPS.load(SeqCst).min(total - 1) }).set("rounds", rounds).set("peak_stack", peak).to_string()
+            );
+        })
+        .expect("spawn");
+    let _ = h.join();
+    DONE.store(true, SeqCst);
+    let _ = reader.join();
+}
+
 fn snode() -> Rc<SNode> {
     Rc::new(SNode { next: [AtomicRc::null(), AtomicRc::null()] })
 }
 
 pub fn c07_child(shape: &str, n: usize, stack: usize) {
+    if shape == "backlog" {
+        // n = lists * 1200
+        return backlog_child(n / 1200, 1200, stack);
+    }
     let shape = shape.to_string();
     let h = std::thread::Builder::new()
         .stack_size(stack)
@@ -82,6 +202,20 @@ pub fn c07_child(shape: &str, n: usize, stack: usize) {
                         }
                         total = t;
                         root
+                    }
+                    "caterpillar" => {
+                        // a spine whose nodes have a leaf as the first edge and the rest of the spine as the last
+                        let mut head: Rc<SNode> = Rc::null();
+                        let mut t = 0;
+                        while t + 2 <= n {
+                            let nd = snode();
+                            nd.as_ref().unwrap().next[0].store(snode(), SeqCst, &g);
+                            nd.as_ref().unwrap().next[1].store(head, SeqCst, &g);
+                            head = nd;
+                            t += 2;
+                        }
+                        total = t;
+                        head
                     }
                     "comb" => {
                         // a long spine where every node also has a leaf child (wide and deep)
@@ -196,13 +330,15 @@ pub fn c07(thorough: bool, shard: u64, nshards: u64) -> ProcOut {
     } else {
         (vec![1 << 20, 2 << 20, 8 << 20], vec![64 << 10, 128 << 10, 256 << 10, 512 << 10])
     };
-    let mut cases: Vec<(&str, usize)> = vec![("chain", 2_000), ("chain", 100_000), ("tree", 65_535), ("comb", 100_000), ("dag", 50_000)];
+    let mut cases: Vec<(&str, usize)> = vec![("chain", 2_000), ("chain", 100_000), ("tree", 65_535), ("comb", 100_000), ("caterpillar", 300_000), ("dag", 50_000), ("backlog", 720_000)];
     if thorough {
         cases.push(("chain", 1_000_000));
         cases.push(("chain", 4_000_000));
         cases.push(("tree", 1 << 20));
         cases.push(("comb", 1_000_000));
         cases.push(("dag", 500_000));
+        cases.push(("caterpillar", 2_000_000));
+        cases.push(("backlog", 1_800_000));
     } else {
         cases.push(("chain", 1_000_000));
     }
